@@ -110,6 +110,11 @@ package task
 //@   [C02] on call isTaskOrRoleCritical : assert arg0 == tasks[0]
 //@   [C02] on aftercall isTaskOrRoleCritical : scAsked = true ; sc = result
 //@   [C02] ensures !multi && respErrSeen && err != nil && len(tasks) == 1 ==> scAsked && sc
+//   ... and the other way round: a non-blank error in a plain response is swallowed only after the task was asked about and
+//   found non-critical
+//@   ghostvar nonBlank bool = false
+//@   [C02] on aftercall strings.TrimSpace when respErrSeen : nonBlank = len(result) != 0
+//@   [C02] ensures !multi && respErrSeen && nonBlank && err == nil ==> scAsked && !sc
 //@   ghostvar multi bool = false
 //@   ghostvar nCrit int = 0
 //@   ghostvar lastCrit bool = false
@@ -632,3 +637,13 @@ package task
 //@   ghostvar cls *taskclass.Class = nil
 //@   on aftercall .GetClass : cls = result0
 //@   on call channel.MergeInbound : assert cls != nil && arg0 == descriptor.RoleBind && arg1 == cls.Bind
+
+// ---------------------------------------------------------------------------------------------------------
+// C18 / C03: every status update Mesos delivers reaches the task manager, exactly once - also one about a task this
+// core has no record of (after a restart that is what a reconciliation answer about a task of the previous life looks
+// like, and handleMessage is where it gets its KILL), and whatever state it reports.
+//@ closure (*schedulerState).statusUpdate #1
+//@   property C18 C03
+//@   ghostvar sent int = 0
+//@   on send task.Manager.MessageChannel : sent = sent + 1
+//@   ensures sent == 1
